@@ -20,11 +20,14 @@ an outcome for it (or while its client-side timeout is expiring).
 
 Engine E: `PoolHarness` (events = request / answer / answer with a retried error / timeout /
 connection reset / next task with the connect accepted or refused / shutdown).  Engine S: `sched_run`
-(client, reactor, timer, executor-worker and shutdown threads after a staged single-threaded prefix,
-optionally followed by a single-threaded epilogue; scheduling points at every line of the pool class).  Both use the same judgements (`PoolWorld.*_findings`); each property passes the list of
+(client, reactor, timer, executor-worker, shutdown and script threads -- a script thread applies a fixed
+list of whole events, the handlers of several driver threads one after the other -- after a staged
+single-threaded prefix, optionally followed by a single-threaded epilogue; scheduling points at every
+line of the pool class; at the end what is outstanding finishes answers first or client timeouts first).
+A hook on the pool's borrow_connection judges what it hands out at the moment it returns.  Both use the same judgements (`PoolWorld.*_findings`); each property passes the list of
 clauses it owns, hits of the other property's clauses are only counted.
 """
-from vt import explore
+from vt import explore, sched
 from vt.connlib import quiet_driver_logs
 from vt.world.vworld import World, VServer, HostSpec, VConnection, VClock
 from vt.world import wire
@@ -754,6 +757,18 @@ def replay_history(params, hist):
 
 
 # ====================================================================== engine S
+class PoolScheduler(sched.Scheduler):
+    """vt.sched.Scheduler on which a timed wait of zero length lets 10 microseconds pass.  A loop of the form
+    "remaining = timeout - now + start; if remaining < 0: break; wait(remaining)" (HostConnection.borrow_connection) whose
+    wait expires exactly at its deadline goes round once more with remaining == 0; on the real clock that second wait
+    returns a little after it was entered, on a clock that only moves to deadlines it would return at the same instant
+    for ever (until SpinClock ends it some hundred rounds later, every round a scheduling point)."""
+    def block(self, pred, deadline, what):
+        if deadline is not None and deadline <= self.clock_now():
+            deadline = self.clock_now() + 1e-5
+        return sched.Scheduler.block(self, pred, deadline, what)
+
+
 def focus_codes(cls):
     """code objects of every method (and property getter) defined by the pool class"""
     import types
@@ -787,7 +802,6 @@ def sched_run(params, prefix, part):
     shutdown_at_end (a pool that no thread shut down is shut down once the threads are gone, then the
     post-condition is judged as after any other shutdown).
     Scheduling points: every virtual primitive and every source line of the pool class's methods."""
-    from vt import sched
     import functools
     p = dict(params)
     p['loopback'] = True
@@ -797,7 +811,7 @@ def sched_run(params, prefix, part):
         for ev in p.get('stage', ()):
             apply_event(st, tuple(ev))
         cls = type(st.pool).__name__
-        s = sched.Scheduler(prefix, focus=focus_codes(type(st.pool)), horizon=p.get('horizon', 12000), clock=st.w.clock)
+        s = PoolScheduler(prefix, focus=focus_codes(type(st.pool)), horizon=p.get('horizon', 12000), clock=st.w.clock)
         threads = list(p['threads'])
         orphan_tags = set(p.get('orphan_tags', ()))
         answer_tags = set(p['answer_tags']) if p.get('answer_tags') is not None else None
